@@ -916,7 +916,13 @@ theorem queueStep_ok (mode : Mode) (c : Nat) (a : String × List Bytes) (ha : a.
   have hn : sig.name ∈ famNames := by rw [hname]; exact ha
   have h1 := runWith_fam_ok (fun _ _ => do fault "nested exec"; return none) mode c sig a.2 false hfind hn _
     h0.data h0.nottl (h0.db_lt c hdb)
-  unfold runInner
+  have hns : scriptNames.contains sig.name = false := by
+    apply scriptNames_contains_false_iff.2
+    have h := hn
+    simp only [famNames, regNames, blockNames, List.cons_append, List.nil_append, List.mem_cons, List.not_mem_nil,
+      or_false] at h
+    rcases h with h | h | h | h | h | h | h | h | h | h | h | h | h <;> rw [h] <;> decide
+  rw [runInner_not_script mode c sig a.2 hns]
   revert h1
   generalize runWith (special fun _ _ => do fault "nested exec"; return none) mode c sig a.2 false
     (s.updConn c fun x => { x with inTx := true }) = rr
